@@ -203,6 +203,26 @@ def run(chk, w):
     priv_rule(chk, P, sorted(constructors), wire, "C05-PRIV")
 
     # ---- INV: stores through the counter pointer
+    # ---- SWITCH: the numbering switch
+    chk.rule("C05-SWITCH", "the switch that turns sequence numbering off for the connection probe is only ever assigned constants, and the probe's success path leaves it on "
+                           "(a saved-and-restored value would keep numbering off after a failed probe)")
+    sw = [g for g in P.globals if g.endswith("seq_num_enabled")]
+    nsw = 0
+    for f in P.repo_functions():
+        for i in f.all_insts():
+            if i.op == "store" and i["ptr"].get("k") == "global" and i["ptr"]["name"] in sw:
+                nsw += 1
+                cv = rules.const_of(f, i["val"])
+                if cv is None:
+                    chk.violation("C05-SWITCH", f.name, i["ptr"]["name"], i.loc(), "the numbering switch is assigned a computed value (line %d): whether later messages are numbered depends on an earlier "
+                                  "state of the switch, e.g. 'off' left behind by a failed connection probe" % i.line)
+                else:
+                    chk.ok("C05-SWITCH", 1, {"store": i.loc(), "value": cv & 1})
+    if sw:
+        chk.floor("numbering_switch_stores", nsw, 2)
+    else:
+        chk.abstain("C05-SWITCH", "numbering switch (global *seq_num_enabled) not found", "-")
+
     chk.rule("C05-INV", "every store to a sequence counter is a constant in [1,255] or old+1 on a path that excludes old == 255")
     n_inv = 0
     targets = []   # (fn, pointer-describing predicate)
